@@ -85,7 +85,7 @@ CLAIMS = {
              "CFG pairing + dependence analysis"),
     "C15": C("Sibling agreement between the sequential and the parallel update function (same masks, own outage "
              "excluded in both, in-service mask applied in both); results consumed in task order (no unordered map); "
-             "workers write only to copies. Also: worker and sequential fallback run N-1 cases with pf_options_nminus1; task list skips out-of-service elements; pool size n_procs. Round 5: same set-up clauses as C14, cause_index guard in both masks, pool chunk size >= 1.",
+             "workers write only to copies. Also: worker and sequential fallback run N-1 cases with pf_options_nminus1; task list skips out-of-service elements; pool size n_procs. Round 5: same set-up clauses as C14, cause_index guard in both masks, pool chunk size >= 1, no option passed twice next to **kwargs.",
              "sibling cross-check + effect analysis on ast"),
     "C16": C("Every declared OPF constraint column is read on the OPF conversion path into the matching ppc limit "
              "column with the load-like inversion pair; paired fancy-index masks agree (MASKPAIR); if/else limit "
@@ -109,7 +109,7 @@ CLAIMS = {
                   "existence and block agreement only, not the estimate."),
     "C20": C("Writer/reader agreement of the serialisers: every metadata key an encoder emits is consumed by its "
              "decoder, every emitted class signature has a decoder, encryption is paired, Excel/SQLite column "
-             "coding sets agree; a stored std-type parameter takes precedence in the documented order. Also: NaN/inf written as JSON extensions, pickle keeps dtype objects, include_* switches not overridden. Round 5: double_precision=15 in every pandas writer; exact suffix removal in the Excel/SQLite reader.",
+             "coding sets agree; a stored std-type parameter takes precedence in the documented order. Also: NaN/inf written as JSON extensions, pickle keeps dtype objects, include_* switches not overridden. Round 5: double_precision=15 in every pandas writer; exact suffix removal in the Excel/SQLite reader; string literals written by an encoder are parsed (not bool()-ed) by its decoder; sniffed JSON strings parsed under try; label conversions of all readers tolerate ValueError.",
              "literal-table extraction and agreement on ast"),
     "C22": C("Foreign keys declared in network_schema are covered by the toolbox tables; every type code of a "
              "referencing table is handled by reindex_elements; every row drop in the toolbox is preceded by group "
